@@ -18,7 +18,12 @@ const vfWide = "0123456789012345678901234567890123456789012345678901234567890123
 // 9 json of a table holding an item json cannot encode (fails part-way), 10 text table with non-ASCII text,
 // 11 text table with a decoration looked up in the registry and then customised by its owner (a '~' rule),
 // 12 text table with that same registered decoration as it is, 13 text table whose owner registers its
-// own decoration under a name at run time and then selects it by that name
+// own decoration under a name at run time and then selects it by that name, 14 and 15 a table annotated
+// by its owner with properties under keys of the owner's own non-pointer types (a string type, a struct)
+type vfOwnStrKey string
+
+type vfOwnStructKey struct{ a, b int }
+
 func vfScenario(sc int, a string) (string, bool) {
 	var t tabular.Table
 	switch sc {
@@ -32,6 +37,14 @@ func vfScenario(sc int, a string) (string, bool) {
 		t = tabular.New()
 	}
 	t.AddHeaders("h1", "h2")
+	if sc == 14 {
+		t.SetProperty(vfOwnStrKey("colour"), "red")
+		t.Column(1).SetProperty(vfOwnStrKey("unit"), "kg")
+	}
+	if sc == 15 {
+		t.SetProperty(vfOwnStructKey{1, 2}, true)
+		t.Column(1).SetProperty(vfOwnStructKey{3, 4}, false)
+	}
 	if sc == 8 {
 		t.AddRowItems(vfWide, "w")
 	}
@@ -53,7 +66,7 @@ func vfScenario(sc int, a string) (string, bool) {
 		out, err = json.Render(t)
 	case 2:
 		out, err = markdown.Render(t)
-	case 3, 8, 10:
+	case 3, 8, 10, 14, 15:
 		out, err = texttable.Render(t)
 	case 11:
 		d := decoration.Named(decoration.D_UTF8_LIGHT)
@@ -93,12 +106,12 @@ func vfScenario(sc int, a string) (string, bool) {
 func VerifC16_independent() {
 	a1 := vfString("a1", 1, vfTXT)
 	a2 := vfString("a2", 1, vfTXT)
-	s1 := vfChoice("scenario1", 14)
+	s1 := vfChoice("scenario1", 16)
 	s2 := 0
 	if vfTier() == 1 {
-		s2 = vfChoice("scenario2", 14)
+		s2 = vfChoice("scenario2", 16)
 	} else {
-		s2 = []int{3, 6, 7, 8, 1, 12}[vfChoice("scenario2", 6)]
+		s2 = []int{3, 6, 7, 8, 1, 12, 0, 15}[vfChoice("scenario2", 8)]
 	}
 	var o1, o2 string
 	var e1, e2 bool
@@ -109,8 +122,8 @@ func VerifC16_independent() {
 		func() { styles = ListStyles() },
 	}
 	nb := 2
-	if vfTier() == 1 || vfChoice("third", 2) == 1 {
-		nb = 3
+	if vfTier() == 1 || (s2 == 3 && vfChoice("third", 2) == 1) {
+		nb = 3 // (quick: the registry reader joins only next to the markdown.New+text scenario)
 	}
 	vfPar(bodies[:nb]...)
 	w1, we1 := vfScenario(s1, a1)
